@@ -510,7 +510,10 @@ class Prop:
     props_file = 'Props/C03.v'
     required_theorems = ['bfd_decode_total', 'bfd_accepts_iff_wellformed',
                          'rtr_decode_no_panic', 'rtr_decode_progress', 'rtr_complete_frame_decided',
-                         'rtr_need_only_if_incomplete', 'rtr_fragmentation_invariant']
+                         'rtr_need_only_if_incomplete', 'rtr_fragmentation_invariant',
+                         'bgp_parse_no_panic_partial', 'bgp_parse_consumes_partial',
+                         'bgp_complete_frame_decided_partial', 'bgp_need_only_if_incomplete_partial',
+                         'bgp_fragmentation_invariant_partial']
     correspondence_name = ('Model/Bfd.v bfd_decode vs packet/src/bfd.rs Message::decode '
                            '(harness/hx-packet, debug and release builds)')
     rule = ('a case is one byte string (BFD) ...; non-trivial when the decoder gets past the length checks; '
